@@ -14,7 +14,12 @@ number of sessions, any names, any interleaving (`Reach`), by induction over ste
 (Lemmas/NamedLocker.lean `Inv`, `inv_step`):
 
   * `refs_eq_users`            waiters(entry) = number of sessions between "take reference" and
-                               "drop reference" (+ the references failed TryLocks left behind);
+                               "drop reference" – exactly, since a failed TryLock gives its
+                               reference back (`fix:` commit FIXL; before it: `refs_eq_users_leaky`,
+                               with one reference left behind per failed TryLock);
+  * `map_empty_when_idle`      when no session is using the locker the map is empty: nothing is
+                               left behind, whatever happened before (false before FIXL:
+                               `failed_trylock_leaves_entry_witness`);
   * `user_finds_its_entry`     whoever has taken a reference under a name still finds, under that
                                name, the very `lockCtr` it points to – an entry in use is never
                                deleted or replaced;
@@ -43,14 +48,37 @@ open Yorkie.NamedLocker Yorkie.Driver
 /-- **The invariant holds in every reachable state** of the code as it is, for every number `n`
     of sessions. -/
 theorem locker_invariant (n : Nat) (s : State) (hr : Reach .current (State.init n) s) : Inv s :=
-  inv_reach n s hr
+  inv_reach .current (by simp) n s hr
 
-/-- **`waiters` counts the users.**  For every entry `k ↦ o` of the map, `waiters` is the number
-    of sessions that have taken a reference on `o` and not yet dropped it, plus one for every
-    `TryLock` that failed on it (the code never gives that reference back). -/
+/-- **`waiters` counts the users.**  For every entry `k ↦ o` of the map, `waiters` is exactly the
+    number of sessions that have taken a reference on `o` and not yet dropped it (a `TryLock` that
+    failed has dropped it when the call returns). -/
 theorem refs_eq_users (n : Nat) (s : State) (hr : Reach .current (State.init n) s) (k o : Nat)
+    (hm : s.map k = some o) : (s.heap o).refs = users s o := by
+  obtain ⟨hi, ht⟩ := tidy_reach n s hr
+  have := hi.refs k o hm
+  rw [(ht k o hm).1] at this
+  simpa using this
+
+/-- the same for the code before FIXL: one reference stays behind for every `TryLock` that failed
+    on the entry -/
+theorem refs_eq_users_leaky (n : Nat) (s : State) (hr : Reach .leakyTry (State.init n) s) (k o : Nat)
     (hm : s.map k = some o) : (s.heap o).refs = users s o + (s.heap o).leaked :=
-  (inv_reach n s hr).refs k o hm
+  (inv_reach .leakyTry (by simp) n s hr).refs k o hm
+
+/-- **Nothing is left behind.**  In every reachable state in which no session is using the locker
+    (all sessions idle: every `Lock`/`RLock` has been matched by its `Unlock`/`RUnlock`, every
+    `TryLock` has returned) the map is empty – also after any number of failed `TryLock`s. -/
+theorem map_empty_when_idle (n : Nat) (s : State) (hr : Reach .current (State.init n) s)
+    (hid : ∀ p ∈ s.ss, p = Phase.idle) : ∀ k, s.map k = none := by
+  intro k
+  cases hm : s.map k with
+  | none => rfl
+  | some o =>
+    have h1 := refs_eq_users n s hr k o hm
+    have h2 := ((tidy_reach n s hr).2 k o hm).2
+    have h3 := users_zero_of_all_idle s hid o
+    omega
 
 /-- **An entry in use is never deleted or replaced.**  A session that has taken a reference
     under the name `k` and got the `lockCtr` `o` – whether it is still waiting for the inner mutex
@@ -58,7 +86,7 @@ theorem refs_eq_users (n : Nat) (s : State) (hr : Reach .current (State.init n) 
 theorem user_finds_its_entry (n : Nat) (s : State) (hr : Reach .current (State.init n) s)
     (i : Nat) (p : Phase) (k o : Nat) (hp : s.ss[i]? = some p) (hk : p.key = some k) (ho : p.obj = some o) :
     s.map k = some o :=
-  (inv_reach n s hr).live i p k o hp hk ho
+  (inv_reach .current (by simp) n s hr).live i p k o hp hk ho
 
 /-- **An entry is deleted only at `waiters = 0`, i.e. when nobody uses it**: if a step removes
     the entry of `k`, no session of the new state has a reference on the `lockCtr` it pointed to. -/
@@ -67,15 +95,15 @@ theorem deleted_only_when_unused (n : Nat) (s s' : State) (hr : Reach .current (
     (k o : Nat) (hm : s.map k = some o) (hd : s'.map k = none) :
     ∀ (j : Nat) (p : Phase), s'.ss[j]? = some p → p.obj ≠ some o := by
   intro j p hj hpo
-  have hinv' := (inv_step s s' i a r (inv_reach n s hr) hs).1
+  have hinv' := (inv_step .current (by simp) s s' i a r (inv_reach .current (by simp) n s hr) hs).1
   cases hk : p.key with
   | none => cases p <;> simp_all [Phase.key, Phase.obj]
   | some k' =>
     have hm' := hinv'.live j p k' o hj hk hpo
     -- `o` is still mapped in `s'` (under `k'`), so it was mapped in `s` under the same name
-    have hb := (inv_reach n s hr).bound k o hm
-    have hk' : s.map k' = some o := step_map_old s s' i a r hs k' o hm' hb
-    have := (inv_reach n s hr).inj k k' o hm hk'
+    have hb := (inv_reach .current (by simp) n s hr).bound k o hm
+    have hk' : s.map k' = some o := step_map_old .current (by simp) s s' i a r hs k' o hm' hb
+    have := (inv_reach .current (by simp) n s hr).inj k k' o hm hk'
     subst this
     simp [hd] at hm'
 
@@ -84,7 +112,7 @@ theorem deleted_only_when_unused (n : Nat) (s s' : State) (hr : Reach .current (
 theorem unlock_never_fails (n : Nat) (s s' : State) (hr : Reach .current (State.init n) s)
     (i : Nat) (a : Act) (r : Outcome) (hs : step .current s i a = some (s', r)) :
     r ≠ .noSuchLock ∧ r ≠ .foreign :=
-  (inv_step s s' i a r (inv_reach n s hr) hs).2
+  (inv_step .current (by simp) s s' i a r (inv_reach .current (by simp) n s hr) hs).2
 
 /-- **Mutual exclusion per name.**  Two sessions that hold the same name exclusively are the same
     session, and nobody holds a name shared while somebody holds it exclusively – whatever
@@ -92,7 +120,7 @@ theorem unlock_never_fails (n : Nat) (s s' : State) (hr : Reach .current (State.
 theorem mutual_exclusion (n : Nat) (s : State) (hr : Reach .current (State.init n) s)
     (i j k o o' : Nat) (hi : s.ss[i]? = some (.holdW k o)) :
     (s.ss[j]? = some (.holdW k o') → i = j) ∧ s.ss[j]? ≠ some (.holdR k o') := by
-  have h := inv_reach n s hr
+  have h := inv_reach .current (by simp) n s hr
   have hm := h.live i _ k o hi rfl rfl
   have hwi := (h.writer k o i hm).mpr hi
   constructor
@@ -146,23 +174,42 @@ example :
               [.none, .acquired, .none, .released, .none, .tryOk, .released, .acquired, .released]) := by
   decide +kernel
 
-/-- Faithfulness note, evaluated: in the code as it is a FAILED `TryLock` leaves its reference
-    behind – after holder and try-locker are both done the entry is still in the map with
-    `waiters = 1` and no user (this is what `leaked` accounts for in `refs_eq_users`). -/
+/-- **Before FIXL `map_empty_when_idle` was false** (switch-off witness, evaluated): a FAILED
+    `TryLock` left its reference behind – after holder and try-locker are both done the entry is
+    still in the map with `waiters = 1` and no user, for the life of the process (names that are
+    only ever try-locked, the snapshot and housekeeping keys, never lose their entry). -/
 theorem failed_trylock_leaves_entry_witness :
-    (exec .current (State.init 2) [(0, .startL 0), (0, .acquire), (1, .startT 0), (1, .try), (0, .unlock)]).map
+    (exec .leakyTry (State.init 2) [(0, .startL 0), (0, .acquire), (1, .startT 0), (1, .try), (0, .unlock)]).map
         (fun r => (r.1.ss, r.1.map 0, (r.1.heap 0).refs, users r.1 0, r.2.getLast?))
       = some ([.idle, .idle], some 0, 1, 0, some .released) := by
   decide +kernel
+
+/-- the same parties under the code as it is: the failed `TryLock` gives its reference back
+    (`drop`) and the holder's `Unlock` deletes the entry; in the other order (the holder leaves
+    first) the try-locker's `drop` deletes it -/
+example :
+    (exec .current (State.init 2)
+        [(0, .startL 0), (0, .acquire), (1, .startT 0), (1, .try), (1, .drop), (0, .unlock)]).map
+        (fun r => (r.1.ss, r.1.map 0, r.2)) =
+      some ([.idle, .idle], none, [.none, .acquired, .none, .tryFailed, .none, .released]) ∧
+    (exec .current (State.init 2)
+        [(0, .startL 0), (0, .acquire), (1, .startT 0), (1, .try), (0, .unlock), (1, .drop)]).map
+        (fun r => (r.1.ss, r.1.map 0, (r.1.heap 0).refs)) = some ([.idle, .idle], none, 0) := by
+  decide +kernel
+
+/-- the repaired TryLock is not the refuted variant: it TAKES its reference whether or not the entry
+    exists (the waiter's entry survives the try-locker's Unlock in the hand-off window: see the
+    `example` above) and only gives it back after a failure; and the model runs the tree's variant -/
+theorem model_uses_current_behaviour : Variant.ofTree = .current := rfl
 
 /-! ## the tie: what the driver engine executes -/
 
 /-- **The scripted episodes are runs of the model.**  Whatever command line the driver engine
     executes, the model state after it is reachable from the model state before it by steps of
-    `step .current` (a `NEW` line starts from `State.init`): the observations the harness
+    `step Variant.ofTree` (a `NEW` line starts from `State.init`): the observations the harness
     compares with the real package are observations of runs the theorems above quantify over. -/
 theorem driver_steps_are_model_runs (st : LockerEngine.St) (toks : List String) :
-    Reach .current st.s (LockerEngine.step st toks).1.s ∨
+    Reach Variant.ofTree st.s (LockerEngine.step st toks).1.s ∨
     (LockerEngine.step st toks).1.s.ss = (State.init LockerEngine.maxSessions).ss ∧
       (LockerEngine.step st toks).1.s.next = 0 := by
   unfold LockerEngine.step
